@@ -86,7 +86,11 @@ class SimulatedExecutionEnvironment(ExecutionEnvironment):
         deterministic_problem = up.model.Problem(problem.name, problem.environment)
 
         for fluent in problem.fluents:
-            default_value = problem.initial_defaults.get(fluent.type, False)
+            # the declared default of the fluent (per-fluent, or the per-type one it
+            # received when it was added); Boolean fluents without any start false
+            default_value = problem.fluents_defaults.get(fluent, None)
+            if default_value is None and fluent.type.is_bool_type():
+                default_value = False
             deterministic_problem.add_fluent(
                 fluent, default_initial_value=default_value
             )
